@@ -18,6 +18,9 @@ def reflection(q, d):
 def evaluate(ctx, res, spec, start, ext_ops, cfg, pre_start_ops=()):
   out = []
   names = spec['names']
+  if cfg.get('pre_subscribe'):
+    # subscribe() before start_at posted a meta event lifo: the object's first step handles it internally (in top)
+    pre_start_ops = [('lifo', 'SUBSCRIBE_META_SIGNAL')] + list(pre_start_ops)
   wit = {'spec': spec, 'start': start, 'ext_ops': ext_ops, 'config': cfg, 'pre_start_ops': list(pre_start_ops)}
 
   def bad(prop, key, what, **kw):
@@ -119,7 +122,11 @@ def evaluate(ctx, res, spec, start, ext_ops, cfg, pre_start_ops=()):
       if instr and rec['cur'] != names[m.cur]:
         return bad('C23', 'C23/current-state-after-step', 'current_state() %r after step %d, current state is %s' % (rec['cur'], i, names[m.cur]), failing_step=i)
       if instr:
-        exp = qrun.expected_spy_lines(rec['calls']) + [reflection(len(qm.q), len(qm.d))]
+        exp = qrun.expected_spy_lines(rec['calls'])
+        if want == 'SUBSCRIBE_META_SIGNAL':
+          ctx.count('subscribe_meta_steps')
+          exp.append('SUBSCRIBING TO:(VT_PRE_SUB, TYPE:%s)' % cfg['pre_subscribe'])     # written by top, which handles the meta event
+        exp.append(reflection(len(qm.q), len(qm.d)))
         if len(exp) < RTC_RING:
           ctx.count('spy_step_logs')
           ctx.maxc('max_spy_lines_per_step', len(exp))
@@ -167,6 +174,8 @@ def evaluate(ctx, res, spec, start, ext_ops, cfg, pre_start_ops=()):
         return bad('C19', 'C19/full-spy-differs', 'spy() has %d lines and differs from the concatenation of the step logs (%d lines, ring %d)' % (len(res.spy_full), len(exp_full), RING),
                    got_tail=res.spy_full[-12:], expected_tail=exp_full[-12:])
     ctx.count('full_trace_compared')
+    if getattr(res, 'trace_error', None):
+      return bad('C20', 'C20/trace-raises', 'trace() raised %s; trace records %r' % (res.trace_error, res.trace_records[-3:]))
     if len(exp_trace) > RING:
       ctx.count('trace_ring_crossed')
     if res.trace_records != exp_trace[-RING:]:
